@@ -29,7 +29,7 @@ func init() {
 		Floor:         c17Floor,
 		MinNontrivial: 100,
 		Phases: []fw.Phase{
-			{Name: "options", N: func(t fw.Tier) int { return pick(t, 6000, 500000) }, Run: c17Run},
+			{Name: "options", N: func(t fw.Tier) int { return pick(t, 20000, 600000) }, Run: c17Run},
 		},
 		Witness: sqlWitness,
 	})
